@@ -254,44 +254,59 @@ def _e2e(case, obs):
     grid = _grid(int((~failed).sum()), "quick")
     p = float(grid[int(rng.integers(len(grid)))])
     cfg, meta = _config(n, fl, kind, p, rng)
-    ranked = np.round(rng.normal(size=n), 1) if rng.random() < 0.3 else rng.normal(size=n)
-    other = rng.normal(size=n) * 10
+    st = {}
+
+    def draw():
+        st["ranked"] = np.round(rng.normal(size=n), 1) if rng.random() < 0.3 else rng.normal(size=n)
+        st["other"] = rng.normal(size=n) * 10
+
+    draw()
 
     def evaluator(variables, context):
         assert variables.shape[0] == n
-        obj = np.where(failed, np.nan, ranked if fl == "objective" else other).reshape(n, 1)
+        obj = np.where(st["failed"], np.nan, st["ranked"] if fl == "objective" else st["other"]).reshape(n, 1)
         if fl == "objective_neg":
-            obj = np.stack([other, np.where(failed, np.nan, ranked)], axis=1)
+            obj = np.stack([st["other"], np.where(st["failed"], np.nan, st["ranked"])], axis=1)
         con = None
         if fl == "constraint":
-            con = np.stack([other * 3, ranked], axis=1)
-            con[failed, 0] = np.nan
+            con = np.stack([st["other"] * 3, st["ranked"]], axis=1)
+            con[st["failed"], 0] = np.nan
         return EvaluatorResult(objectives=obj, constraints=con)
 
     ee = EnsembleEvaluator(cfg, None, evaluator, _pm())
-    (res,) = ee.calculate(np.zeros(2), compute_functions=True, compute_gradients=False)
-    bad = _badness(fl, kind, meta, ranked)
-    obs.count("cvar.e2e")
-    obs.nontrivial("e2e", case["i"])
-    if res.functions is None:
-        obs.violation("e2e_no_functions", n=n, failed=failed)
-        return
-    isobj = fl in ("objective", "objective_neg")
-    got = float(res.functions.objectives[{"objective": 0, "objective_neg": 1}[fl]] if isobj else res.functions.constraints[1])
-    rows = res.realizations.objective_weights if isobj else res.realizations.constraint_weights
-    row = rows[0] if fl == "objective" else rows[1]
-    for k, d in models.check_cvar_weights(row, bad, failed, p):
-        obs.violation("e2e_" + k, flavour=fl, kind=kind, percentile=p, failed=failed, ranked=ranked, w=row, **d)
-        return
-    if bad is not None:
-        # tail mean under the (already validated) reported weights: with tied badness but different values
-        # (equality constraints on both sides of the target) the model's own tie order need not be ropt's
-        rw = np.asarray(row, dtype=np.float64)
-        want = float(np.dot(rw, np.where(failed, 0.0, ranked)) / rw.sum())
-        ref, _ = models.cvar_tail_mean(ranked, bad, failed, p)
-        if len(set(np.asarray(bad)[~failed].tolist())) == int((~failed).sum()):
-            obs.count("cvar.e2e_untied")
-            obs.check(abs(ref - want) <= 1e-10 * (1 + abs(want)), "e2e_tail_mean_model", ref=ref, want=want)
-        obs.check(abs(got - want) <= 1e-10 * (1 + abs(want)), "e2e_tail_mean", got=got, want=want, percentile=p,
-                  flavour=fl, kind=kind, failed=failed, ranked=ranked)
+    # one evaluator (one filter object) judges a short history of evaluations: values and failures change between them
+    for rnd in range(int(rng.integers(1, 4))):
+        if rnd:
+            draw()
+            failed = rng.random(n) < rng.choice([0.0, 0.3])
+            if failed.all():
+                failed[int(rng.integers(n))] = False
+            obs.count("cvar.e2e_later_evaluation_of_same_evaluator")
+        st["failed"] = failed
+        ranked, other = st["ranked"], st["other"]
+        (res,) = ee.calculate(np.zeros(2), compute_functions=True, compute_gradients=False)
+        bad = _badness(fl, kind, meta, ranked)
+        obs.count("cvar.e2e")
+        obs.nontrivial("e2e", case["i"])
+        if res.functions is None:
+            obs.violation("e2e_no_functions", n=n, failed=failed)
+            return
+        isobj = fl in ("objective", "objective_neg")
+        got = float(res.functions.objectives[{"objective": 0, "objective_neg": 1}[fl]] if isobj else res.functions.constraints[1])
+        rows = res.realizations.objective_weights if isobj else res.realizations.constraint_weights
+        row = rows[0] if fl == "objective" else rows[1]
+        for k, d in models.check_cvar_weights(row, bad, failed, p):
+            obs.violation("e2e_" + k, flavour=fl, kind=kind, percentile=p, failed=failed, ranked=ranked, w=row, **d)
+            return
+        if bad is not None:
+            # tail mean under the (already validated) reported weights: with tied badness but different values
+            # (equality constraints on both sides of the target) the model's own tie order need not be ropt's
+            rw = np.asarray(row, dtype=np.float64)
+            want = float(np.dot(rw, np.where(failed, 0.0, ranked)) / rw.sum())
+            ref, _ = models.cvar_tail_mean(ranked, bad, failed, p)
+            if len(set(np.asarray(bad)[~failed].tolist())) == int((~failed).sum()):
+                obs.count("cvar.e2e_untied")
+                obs.check(abs(ref - want) <= 1e-10 * (1 + abs(want)), "e2e_tail_mean_model", ref=ref, want=want)
+            obs.check(abs(got - want) <= 1e-10 * (1 + abs(want)), "e2e_tail_mean", got=got, want=want, percentile=p,
+                      flavour=fl, kind=kind, failed=failed, ranked=ranked)
     obs.sample({"e2e": True, "n": n, "flavour": fl, "kind": kind, "p": p, "value": got})
